@@ -291,11 +291,23 @@ def harnesses(tier):
         hs.append(Harness('conn:auth_plain[raw=%d]' % n, c06_conn.h_auth_plain(_cg, n), {'decoded_bytes': n},
                           replay='authplain', task_budget=60))
     for wi in range(len(c06_conn.NEST)):
-        for depth in ([1500] if q else [400, 1500, 5000]):
+        for depth in ([4000] if q else [400, 1500, 4000, 12000]):
             hs.append(Harness('conn:nesting[%s x%d]' % ((c06_conn.NEST[wi][0] + c06_conn.NEST[wi][1]).decode().strip(), depth),
                               c06_conn.h_nesting(_cg, wi, depth, 1 if q else 2),
                               {'construct': c06_conn.NEST[wi][1].decode(), 'depth': depth, 'symbolic_tail': 1 if q else 2},
                               replay='nesting', task_budget=120))
+    for kind in range(len(c06_conn.DEEP)):
+        for depth in ([700 if kind == 2 else 4000] if q else ([300, 700] if kind == 2 else [300, 1500, 4000, 12000])):
+            hs.append(Harness('conn:deep_message[%s x%d]' % (c06_conn.DEEP[kind], depth), c06_conn.h_deep(_cg, kind, depth, 0 if kind == 2 else 1),
+                              {'construct': c06_conn.DEEP[kind], 'depth': depth, 'symbolic_body_bytes': 0 if kind == 2 else 1,
+                               'then': 'FETCH every attribute, SEARCH every header/date/text key'}, replay='deepmsg',
+                              task_budget=120, fuel=6000000))
+    for nh in ([1] if q else [1, 2]):
+        hs.append(Harness('conn:message_headers[%d]' % nh, c06_conn.h_headers(_cg, nh),
+                          {'headers_per_message': nh, 'header_names': len(c06_conn.HDR_NAMES),
+                           'values': '%d representatives of the email package\'s outcome classes' % len(c06_conn.HDR_VALUES),
+                           'then': 'FETCH every attribute, SEARCH every header/date/text key'}, replay='msgheaders',
+                          task_budget=120))
     hs.append(Harness('seqset_work_bound', _h_seqset_work(),
                       {'numbers': '1..2^32-1 (symbolic) or *', 'max_value': '0..2^32-1 (symbolic)',
                        'shapes': ['n', '*', 'a:b', 'a:*', '*:b']}, replay='seqwork'))
@@ -377,7 +389,7 @@ def _with_alarm(fn, seconds=1.0):
 
 
 def replay(harness, w):
-    if harness in ('badlimit', 'authplain', 'nesting'):
+    if harness in ('badlimit', 'authplain', 'nesting', 'msgheaders', 'deepmsg'):
         from checks import c06_conn
         return c06_conn.replay(harness, w)
     from pymap.parsing import Params
@@ -427,4 +439,9 @@ def replay(harness, w):
 
 
 def classify(harness, w, res):
+    if harness == 'msgheaders' and 'NotImplementedError' in str(res.get('detail')):
+        from checks import c06_conn
+        cte = c06_conn.HDR_NAMES.index(b'Content-Transfer-Encoding')
+        if any(h == cte for h, _ in w.get('picks', [])):
+            return 'C06-unknown-cte-binary'
     return None
